@@ -46,6 +46,7 @@ def setup(ctx):
     ctx.require("monitor", "concurrent_exchanges", 8)
     ctx.require("monitor", "complete_non2x_then_trouble", 9)
     ctx.require("monitor", "configured_stalls", 20)
+    ctx.require("monitor", "speak_first_upstream_exchanges", 14)
     ctx.require("monitor", "exchanges", 74)
     ctx.require("monitor", "verbatim_compared", 43)
     ctx.require("monitor", "faults_injected", 25)
@@ -184,6 +185,41 @@ def judge_fault(ctx, kind, r, extra=None):
         return
     ctx.count("monitor", "got_43")
     ctx.count("outcome", f"43:{kind}")
+
+
+def run_speak_first_upstream(ctx, world, cfg):
+    """An upstream that answers before it has read the proxy's request (end of its handshake, the complete response
+    and close_notify in one segment; TLS 1.2 and 1.3): a well-formed response is a well-formed response whenever
+    it arrives - it is relayed."""
+    from vf.gen import certs
+
+    streams = [b"20 text/gemini\r\nspoken first by the upstream\n", b"51 Not found here\r\n", b"31 gemini://example.org/moved\r\n", b"10 Enter a word\r\n", b"44 30\r\n", b"60 Certificate required\r\n",
+               b"20 application/octet-stream\r\n" + bytes(range(256)) * 4]
+    real_upstream = world.upstream
+    try:
+        for tls12 in (True, False):
+            for stream in streams:
+                with peers.SpeakFirstPeer(certs.identity("c18-speak-first", "ec"), response=stream, tls12=tls12) as sp:
+                    world.upstream = sp
+                    srv, _ = world.server(cfg, timeout=10)
+                    with srv:
+                        r = live.fetch_raw(srv.port, f"gemini://127.0.0.1:{srv.port}/x\r\n".encode(), timeout=20)
+                    sp.wait_idle(3)
+                    ctx.count("monitor", "exchanges")
+                    ctx.count("monitor", "verbatim_compared")
+                    ctx.count("monitor", "speak_first_upstream_exchanges")
+                    wit = {"upstream": f"answers before reading the request ({'TLS 1.2' if tls12 else 'TLS 1.3'})", "upstream_sent": stream[:80], "downstream": r["data"][:120]}
+                    if r["data"] != stream:
+                        if not tls12 and r["data"].startswith(b"43"):
+                            # TLS 1.3: the proxy's client may see the close while it is still writing its request
+                            ctx.undecided("speak-first-upstream:tls13:43")
+                        else:
+                            ctx.violation(f"relay-altered:upstream-speaks-first:status={stream[:1].decode()}x", "a well-formed upstream response that arrived early was not relayed as it is", wit)
+                    else:
+                        ctx.count("outcome", "verbatim:upstream-speaks-first")
+                    ctx.case(("speak-first-upstream", tls12, stream[:2], r["data"][:2]), True, sample=wit)
+    finally:
+        world.upstream = real_upstream
 
 
 def run_configured_stall(ctx, base):
@@ -633,6 +669,8 @@ def run(ctx):
                     ctx.case(("fault", "tls-failure", r["data"][:2]), True)
         if ctx.mine(6):
             run_configured_stall(ctx, base)
+        if ctx.mine(7):
+            run_speak_first_upstream(ctx, world, cfg)
         if ctx.mine(5):
             srv4, _ = world.server(cfg, timeout=20)
             big = b"20 application/octet-stream\r\n" + b"\xcd" * (CAP + 1)
